@@ -266,6 +266,10 @@ func checkC18(c *TeardownCase) (*ev.Failure, map[string]bool) {
 			cc.MarkEnding()
 			cc.SendJSON(map[string]interface{}{"type": "connection_terminate"})
 			connEnded = true
+		case "client:wsClose":
+			cc.MarkEnding()
+			cc.SendClose()
+			connEnded = true
 		case "client:disconnect":
 			cc.Close()
 			connEnded = true
@@ -390,7 +394,7 @@ func checkC18(c *TeardownCase) (*ev.Failure, map[string]bool) {
 func teardownFeatures(c *TeardownCase) []string {
 	fs := map[string]bool{}
 	isTeardown := func(s TStep) bool {
-		return s.Actor == "client" && (s.Kind == "stop" || s.Kind == "terminate" || s.Kind == "disconnect" || s.Kind == "malformed" || s.Kind == "startNoPayload" || s.Kind == "unknownType" || s.Kind == "invalidQuery")
+		return s.Actor == "client" && (s.Kind == "stop" || s.Kind == "terminate" || s.Kind == "disconnect" || s.Kind == "wsClose" || s.Kind == "malformed" || s.Kind == "startNoPayload" || s.Kind == "unknownType" || s.Kind == "invalidQuery")
 	}
 	started := map[int]bool{}
 	active := 0
@@ -464,7 +468,7 @@ func genTeardownCase(t *rapid.T) *TeardownCase {
 		}
 		if rapid.IntRange(0, 9).Draw(t, "actor") < 5 {
 			s.Actor = "client"
-			s.Kind = rapid.SampledFrom([]string{"start", "start", "start", "stop", "stop", "terminate", "disconnect", "malformed", "startNoPayload", "unknownType", "invalidQuery"}).Draw(t, "ckind")
+			s.Kind = rapid.SampledFrom([]string{"start", "start", "start", "stop", "stop", "terminate", "disconnect", "wsClose", "malformed", "startNoPayload", "unknownType", "invalidQuery"}).Draw(t, "ckind")
 			if s.Kind == "start" {
 				s.Wait = true // a start is synchronous in the harness: it waits for the upstream subscription
 			}
@@ -491,7 +495,7 @@ func genTeardownCase(t *rapid.T) *TeardownCase {
 		}
 		c.Steps = []TStep{{Actor: "client", Kind: "init", Wait: true}, {Actor: "client", Kind: "start", Wait: true}}
 		tail := []TStep{
-			{Actor: "client", Kind: rapid.SampledFrom([]string{"stop", "stop", "terminate", "disconnect", "malformed"}).Draw(t, "dteardown")},
+			{Actor: "client", Kind: rapid.SampledFrom([]string{"stop", "stop", "terminate", "disconnect", "wsClose", "malformed"}).Draw(t, "dteardown")},
 			{Actor: "upstream", Kind: rapid.SampledFrom([]string{"complete", "event", "event", "error", "disconnect"}).Draw(t, "dupstream")},
 		}
 		if rapid.Bool().Draw(t, "swap") {
@@ -528,7 +532,7 @@ func TestC18(t *testing.T) {
 		t.Fatal("C18 needs -tags verif")
 	}
 	rec := ev.Get("C18")
-	rec.Rule = "histories of 2..10 client actions (start, stop, terminate, abrupt disconnect, malformed JSON, start without payload, unknown type, invalid query) and upstream actions (event, complete, error, disconnect) over 1..3 subscriptions on one connection (harness-owned net.Pipe), each step either followed by a settle pause or racing with the next one; upstream scripted in process (75%) or a real graphql-ws server behind the real MultiOpQueryer.Subscribe (25%); for single-subscription cases 1..3 drawn ordering constraints 'hook point P before hook point Q' over 18 verif hook points, enforced by parking the goroutine that reaches Q first (bounded). Oracle: process alive, handler returns (30s limit) after the final client disconnect, every byte sequence received parses as complete RFC 6455 frames carrying JSON messages, every upstream subscription/connection observed closed and no goroutine of Listen/Close/Subscribe/heartbeat/handler left (30s limit). non-trivial = a teardown action racing an upstream action, or a satisfied ordering constraint; distinct by hash(case)"
+	rec.Rule = "histories of 2..10 client actions (start, stop, terminate, abrupt disconnect, websocket close frame, malformed JSON, start without payload, unknown type, invalid query) and upstream actions (event, complete, error, disconnect) over 1..3 subscriptions on one connection (harness-owned net.Pipe), each step either followed by a settle pause or racing with the next one; upstream scripted in process (75%) or a real graphql-ws server behind the real MultiOpQueryer.Subscribe (25%); for single-subscription cases 1..3 drawn ordering constraints 'hook point P before hook point Q' over 18 verif hook points, enforced by parking the goroutine that reaches Q first (bounded). Oracle: process alive, handler returns (30s limit) after the final client disconnect, every byte sequence received parses as complete RFC 6455 frames carrying JSON messages, every upstream subscription/connection observed closed and no goroutine of Listen/Close/Subscribe/heartbeat/handler left (30s limit). non-trivial = a teardown action racing an upstream action, or a satisfied ordering constraint; distinct by hash(case)"
 	defer census.dump("C18")
 	rapid.Check(t, func(t *rapid.T) {
 		c := genTeardownCase(t)
